@@ -20,6 +20,8 @@ func main() {
 	replay := flag.String("replay", "", "replay file")
 	workers := flag.Int("workers", 0, "worker processes (default: cores)")
 	list := flag.Bool("list", false, "list registered properties")
+	lone := flag.String("lone", "", "run one execution of this phase alone (internal)")
+	choices := flag.String("choices", "", "choice prefix for -lone")
 	flag.Parse()
 	if t := os.Getenv("VERIF_TIER"); t != "" && *shard < 0 {
 		_ = t // the tier given on the command line wins; VERIF_TIER is informational
@@ -29,6 +31,9 @@ func main() {
 			fmt.Println(id)
 		}
 		return
+	}
+	if *lone != "" {
+		os.Exit(engine.RunLoneExecution(*prop, *tier, *lone, *choices))
 	}
 	if *replay != "" {
 		os.Exit(engine.RunReplay(*replay))
